@@ -18,6 +18,14 @@ def stub(ex, pattern, label):
     return deco
 
 
+def each_value(ex, term, values):
+    """fork over the concrete values a path may have left open for `term` (an input the code did not look at must be
+    right for every value it can have - never pick 'the first feasible one' for the oracle)"""
+    values = list(values)
+    for i in ex.branches([term == v for v in values]):
+        yield values[i]
+
+
 def err_value(tag):
     return Opaque("error::Located<error::ErrorData>", tag)
 
